@@ -463,8 +463,10 @@ func (env *SpecEnv) binary(x *EBin) SVal {
 		case "+", "-":
 			return SVal{V: Sc{app(SInt, x.Op, l, r)}, T: rt}
 		case "/":
+			env.specDivFacts(l, r)
 			return SVal{V: Sc{tdiv(l, r)}, T: rt}
 		case "%":
+			env.specDivFacts(l, r)
 			return SVal{V: Sc{trem(l, r)}, T: rt}
 		case "<", "<=", ">", ">=":
 			return env.boolVal(app(SBool, x.Op, l, r))
@@ -1453,4 +1455,20 @@ func exprString(e Expr) string {
 		return "(?:)"
 	}
 	return "?"
+}
+
+func (env *SpecEnv) specDivFacts(x, y Term) {
+	if _, lit := litValue(y); lit {
+		return
+	}
+	if strings.Contains(x.S, "!q") || strings.Contains(y.S, "!q") {
+		return
+	}
+	cx := env.ex.cx
+	q := cx.name("q", app(SInt, "div", x, y))
+	r := cx.name("m", app(SInt, "mod", x, y))
+	cx.assume(implies(app(SBool, ">", y, intLit(0)), and(
+		eq(x, app(SInt, "+", cx.mul(y, q), r)),
+		app(SBool, "<=", intLit(0), r), app(SBool, "<", r, y),
+		implies(app(SBool, ">=", x, intLit(0)), app(SBool, ">=", q, intLit(0))))))
 }
